@@ -21,6 +21,8 @@ pub struct IoInner {
     /// per `poll_write` call: how many bytes to accept (None = Pending). Empty script = accept all.
     pub wscript: std::collections::VecDeque<Option<usize>>,
     pub wlog: Vec<String>,
+    /// `poll_shutdown` was called
+    pub shut: bool,
 }
 
 #[derive(Clone, Default)]
@@ -65,6 +67,7 @@ impl AsyncWrite for Io {
         Poll::Ready(Ok(()))
     }
     fn poll_shutdown(self: Pin<&mut Self>, _cx: &mut Context<'_>) -> Poll<std::io::Result<()>> {
+        self.0.lock().unwrap().shut = true;
         Poll::Ready(Ok(()))
     }
 }
@@ -339,6 +342,20 @@ impl CodecH {
                     Poll::Ready(Err(e)) => format!("err {:?} out={}", e.kind(), hex(&out)),
                 })
             }
+            ["wr_shutdown", sc] => {
+                self.set_script(sc)?;
+                let waker = noop_waker();
+                let mut cx = Context::from_waker(&waker);
+                let r = self.codec.shutdown(&mut cx);
+                let out = self.take_written();
+                self.wr_ready = false;
+                let shut = self.io.0.lock().unwrap().shut as u8;
+                Some(match r {
+                    Poll::Ready(Ok(())) => format!("ready out={} shut={}", hex(&out), shut),
+                    Poll::Pending => format!("pending out={} shut={}", hex(&out), shut),
+                    Poll::Ready(Err(e)) => format!("err {:?} out={} shut={}", e.kind(), hex(&out), shut),
+                })
+            }
             ["rd_new", n] => {
                 *self = CodecH::new(n.parse().ok()?);
                 Some("ok".into())
@@ -569,7 +586,19 @@ pub fn gen_write(rng: &mut Rng, cases: usize, out: &mut dyn Write) {
                 _ => {
                     writeln!(out, "wr_ready {}", gen_script(rng)).unwrap();
                     let sid = 1 + 2 * rng.below(5);
-                    let item = match rng.below(12) {
+                    let item = match rng.below(13) {
+                        12 if maxf <= 20000 => {
+                            // a header block whose size sits on the frame-size boundary: one never-indexed field
+                            // ('Z' has an 8-bit Huffman code: h2 always Huffman-codes, so the coded length is the length)
+                            let l = maxf - 30 + rng.below(45) as usize;
+                            let v = vec![b'Z'; l];
+                            let f = format!("{}:{}:s", hex(b"x-a"), hex(&v));
+                            if rng.chance(1, 2) {
+                                format!("headers {} {} {}:{}:-,{}", sid, rng.below(2), hex(b":status"), hex(b"200"), f)
+                            } else {
+                                format!("push_promise {} {} {}:{}:-,{}", sid, 2 + 2 * rng.below(5), hex(b":method"), hex(b"GET"), f)
+                            }
+                        }
                         0 | 1 | 2 | 3 => {
                             let n = *rng.pick(&[0usize, 1, 100, 1014, 1015, 1023, 1024, 1025, 1033, 2000, 16383, 16384, 16385, 20000]);
                             let n = if n > maxf + 1 { maxf } else { n };
@@ -619,8 +648,17 @@ pub fn gen_write(rng: &mut Rng, cases: usize, out: &mut dyn Write) {
                 }
             }
         }
-        writeln!(out, "wr_flush -").unwrap();
-        writeln!(out, "wr_flush -").unwrap();
+        if rng.chance(1, 2) {
+            // close with frames still buffered: `shutdown` must flush everything before the transport is shut down
+            for _ in 0..(1 + rng.below(4)) {
+                writeln!(out, "wr_shutdown {}", gen_script(rng)).unwrap();
+            }
+            writeln!(out, "wr_shutdown -").unwrap();
+            writeln!(out, "wr_shutdown -").unwrap();
+        } else {
+            writeln!(out, "wr_flush -").unwrap();
+            writeln!(out, "wr_flush -").unwrap();
+        }
     }
 }
 
